@@ -12,6 +12,7 @@ import (
 	"hash"
 	"io"
 	"sort"
+	"strings"
 
 	"mellium.im/xmlstream"
 	"mellium.im/xmpp"
@@ -122,7 +123,8 @@ func (i Info) AppendHash(dst []byte, h hash.Hash) []byte {
 		io.WriteString(h, "<")
 	}
 
-	// Hash forms
+	// Hash forms, sorted by FORM_TYPE
+	forms := make([]hashChunk, 0, len(i.Form))
 	for _, infoForm := range i.Form {
 		var formType string
 		fields := make([]string, 0, infoForm.Len())
@@ -134,30 +136,49 @@ func (i Info) AppendHash(dst []byte, h hash.Hash) []byte {
 			fields = append(fields, f.Var)
 		})
 		sort.Strings(fields)
-		/* #nosec */
-		io.WriteString(h, formType)
-		/* #nosec */
-		io.WriteString(h, "<")
+		var text strings.Builder
+		text.WriteString(formType)
+		text.WriteString("<")
 		for _, f := range fields {
-			/* #nosec */
-			io.WriteString(h, f)
-			/* #nosec */
-			io.WriteString(h, "<")
+			text.WriteString(f)
+			text.WriteString("<")
 			vals, _ := infoForm.Raw(f)
 			sort.Strings(vals)
 			for _, val := range vals {
-				/* #nosec */
-				io.WriteString(h, val)
-				/* #nosec */
-				io.WriteString(h, "<")
+				text.WriteString(val)
+				text.WriteString("<")
 			}
 		}
+		forms = append(forms, hashChunk{key: formType, text: text.String()})
+	}
+	sortChunks(forms)
+	for _, f := range forms {
+		/* #nosec */
+		io.WriteString(h, f.text)
 	}
 
 	dst = h.Sum(dst)
 	out := make([]byte, base64.StdEncoding.EncodedLen(len(dst)))
 	base64.StdEncoding.Encode(out, dst)
 	return out
+}
+
+// hashChunk is a part of the verification string together with the key that it
+// is sorted by.
+type hashChunk struct {
+	key, text string
+}
+
+// sortChunks sorts by key.
+// Chunks with equal keys are ordered by their text so that the result does not
+// depend on the order of the input.
+func sortChunks(c []hashChunk) {
+	sort.Slice(c, func(a, b int) bool {
+		if c[a].key != c[b].key {
+			return c[a].key < c[b].key
+		}
+		return c[a].text < c[b].text
+	})
 }
 
 // GetInfo discovers a set of features and identities associated with a JID and
